@@ -11,6 +11,7 @@ I->S: seeded random sessions over real strings are executed on the real code; th
       decisions are validated by AccessTrace.tla, which evaluates the property clauses at
       every step."""
 import random
+from concurrent.futures import ThreadPoolExecutor
 from vlib import Infra
 
 INVS = "token clauses, carried bits, view/edit clauses, mechanism consistency"
@@ -38,18 +39,30 @@ def run(ctx):
     # 1. model checking of the design (property clauses vs transcribed mechanism) and, in the same
     #    exploration, export of every behaviour for the replay
     if th:
-        mc = ctx.tlc("AccessMC", "Access_mc_big.cfg", timeout=3000, coverage=True, constants=consts, heap="6g",
-                     name="policy space (<=2 bits) + token space (<=3 deviations)")
-        ctx.require_model_ok(mc, INVS)
-        mt = ctx.tlc("AccessMCBig", "Access_mc_tok_big.cfg", timeout=3000, constants=consts, heap="6g", name="full token product (decisive values)")
-        ctx.require_model_ok(mt, INVS)
-        m3 = ctx.tlc("AccessMC", "Access_mc3_big.cfg", timeout=3000, constants=consts, heap="6g", name="three-bit sets")
-        ctx.require_model_ok(m3, INVS)
-        # the code before the repair of the presort-tag hole: the clause must fire at design level
-        d = ctx.tlc("AccessMC", "Access_defect.cfg", timeout=900, name="pre-fix design (must violate)",
-                    expect_violation=True, record=False, heap="4g")
-        if d.violated != "invariant:EditKeepsPresort":
-            raise Infra("EditKeepsPresort is not live: the pre-fix transcription gives %s" % d.violated)
+        # independent exhaustive runs side by side (the full token product hangs off one initial
+        # state, so TLC explores it with a single worker)
+        jobs = [
+            ("mc", dict(module="AccessMC", cfg="Access_mc_big.cfg", coverage=True, workers=6,
+                        name="policy space: <=2 bits x protected sets x names x renames/attribute changes")),
+            ("m3", dict(module="AccessMC", cfg="Access_mc3_big.cfg", workers=5, name="policy space: <=3 bits")),
+            ("mt", dict(module="AccessMCBig", cfg="Access_mc_tok_big.cfg", workers=2,
+                        name="full token product (decisive values)")),
+            # the code before the repair of the presort-tag hole: the clause must fire at design level
+            ("d", dict(module="AccessMC", cfg="Access_defect.cfg", workers=2, name="pre-fix design (must violate)",
+                       expect_violation=True)),
+        ]
+
+        def one(job):
+            kw = dict(job[1])
+            kw["record"] = False          # evidence is filled from the main thread below
+            return job[0], ctx.tlc(kw.pop("module"), kw.pop("cfg"), timeout=3000, heap="6g", **kw)
+        with ThreadPoolExecutor(max_workers=len(jobs)) as ex:
+            done = dict(ex.map(one, jobs))
+        for k, kw in jobs[:3]:
+            ctx.ev.add_tlc(done[k], name=kw["name"], constants=consts)
+            ctx.require_model_ok(done[k], INVS)
+        if done["d"].violated != "invariant:EditKeepsPresort":
+            raise Infra("EditKeepsPresort is not live: the pre-fix transcription gives %s" % done["d"].violated)
     beh = ctx.tlc("AccessMC", "Access_beh_big.cfg" if th else "Access_beh.cfg", timeout=3000 if th else 900,
                   name="families tok/view/rename/attr: invariants + behaviour export", constants=consts, heap="6g")
     ctx.require_model_ok(beh, INVS)
